@@ -1,6 +1,7 @@
 package c19
 
 import (
+	"encoding/base64"
 	"encoding/binary"
 	"encoding/hex"
 	"fmt"
@@ -13,15 +14,20 @@ import (
 
 	"pgregory.net/rapid"
 
+	"github.com/jcmturner/gokrb5/v8/client"
+	"github.com/jcmturner/gokrb5/v8/config"
+	"github.com/jcmturner/gokrb5/v8/credentials"
 	"github.com/jcmturner/gokrb5/v8/keytab"
 	"github.com/jcmturner/gokrb5/v8/messages"
 	"github.com/jcmturner/gokrb5/v8/service"
 
 	"verif/harness/evid"
 	"verif/harness/kgen"
+	"verif/harness/mint"
 	"verif/harness/ref/der"
 	ref "verif/harness/ref/krbcrypto"
 	"verif/harness/ref/pacfmt"
+	"verif/harness/sim/kdc"
 )
 
 // End to end: the presentation of a Case travels as AD-WIN2K-PAC inside AD-IF-RELEVANT in the
@@ -94,7 +100,162 @@ func mintAPReq(pacBytes, svcKey []byte, etype int32, user string, now time.Time,
 		"authenticator": der.M{"etype": etype, "cipher": act}})
 }
 
+// checkADCreds compares the attributes handed to the application with the reference decoding of the verified PAC.
+func checkADCreds(creds *credentials.Credentials, b *built) evid.Verdict {
+	i := pacfmt.First(b.entries, pacfmt.TypeLogonInfo)
+	li, err := pacfmt.ParseLogonInfo(b.pac[b.entries[i].Offset : b.entries[i].Offset+uint64(b.entries[i].Size)])
+	if err != nil {
+		return evid.Fail("harness:reference-logon-info", "%v", err)
+	}
+	ad := creds.GetADCredentials()
+	type cmp struct {
+		f    string
+		g, w any
+	}
+	for _, x := range []cmp{
+		{"EffectiveName", ad.EffectiveName, li.EffectiveName.String()}, {"FullName", ad.FullName, li.FullName.String()},
+		{"UserID", uint32(ad.UserID), li.UserID}, {"PrimaryGroupID", uint32(ad.PrimaryGroupID), li.PrimaryGroupID},
+		{"LogonDomainName", ad.LogonDomainName, li.LogonDomainName.String()}, {"LogonDomainID", ad.LogonDomainID, li.LogonDomainID.String()},
+		{"LogonServer", ad.LogonServer, li.LogonServer.String()},
+	} {
+		if !reflect.DeepEqual(x.g, x.w) {
+			if ws, ok := x.w.(string); ok && hasSupplementary(ws) {
+				return evid.Fail("attr:utf16-surrogate-pair:logon-info", "ADCredentials.%s = %q, the verified PAC encodes %q", x.f, x.g, x.w)
+			}
+			return evid.Fail("e2e:attr:"+x.f, "ADCredentials.%s = %v, the verified PAC encodes %v", x.f, x.g, x.w)
+		}
+	}
+	for _, x := range []struct {
+		f string
+		g time.Time
+		w uint64
+	}{{"LogOnTime", ad.LogOnTime, li.LogonTime}, {"LogOffTime", ad.LogOffTime, li.LogoffTime}, {"PasswordLastSet", ad.PasswordLastSet, li.PasswordLastSet}} {
+		if want := pacfmt.FileTimeToTime(x.w); !x.g.Equal(want) {
+			if y := want.Year(); y >= 1678 && y <= 2261 {
+				// a value the conversion can hold: not the overflow of the dependency (known finding), the wrong attribute
+				return evid.Fail("e2e:attr:"+x.f, "ADCredentials.%s = %s, the verified PAC encodes FILETIME %#x = %s", x.f, x.g.Format(time.RFC3339Nano), x.w, want.Format(time.RFC3339Nano))
+			}
+			return evid.Fail("e2e:attr:filetime-conversion", "ADCredentials.%s = %s, the verified PAC encodes FILETIME %#x = %s", x.f, x.g.Format(time.RFC3339Nano), x.w, want.Format(time.RFC3339Nano))
+		}
+	}
+	gs, ws := append([]string{}, ad.GroupMembershipSIDs...), append([]string{}, li.GroupSIDs()...)
+	sort.Strings(gs)
+	sort.Strings(ws)
+	if !reflect.DeepEqual(uniq(gs), uniq(ws)) {
+		return evid.Fail("e2e:attr:GroupMembershipSIDs", "ADCredentials.GroupMembershipSIDs = %v, the verified PAC encodes %v", ad.GroupMembershipSIDs, li.GroupSIDs())
+	}
+	for _, s := range ws {
+		if !creds.Authorized(s) {
+			return evid.Fail("e2e:attr:Authorized", "credentials.Authorized(%q) is false for a group SID of the verified PAC", s)
+		}
+	}
+	if li.EffectiveName.String() != "" && creds.UserName() != li.EffectiveName.String() {
+		return evid.Fail("e2e:attr:UserName", "credentials.UserName() = %q, the verified PAC names %q", creds.UserName(), li.EffectiveName.String())
+	}
+	if li.FullName.String() != "" && creds.DisplayName() != li.FullName.String() {
+		return evid.Fail("e2e:attr:DisplayName", "credentials.DisplayName() = %q, the verified PAC names %q", creds.DisplayName(), li.FullName.String())
+	}
+	return evid.Pass()
+}
+
+var etypeNames = map[int32]string{16: "des3-cbc-sha1-kd", 17: "aes128-cts-hmac-sha1-96", 18: "aes256-cts-hmac-sha1-96",
+	19: "aes128-cts-hmac-sha256-128", 20: "aes256-cts-hmac-sha384-192", 23: "rc4-hmac"}
+
+// evalBasic: the other route on which the library hands PAC attributes to an application: service.KRB5BasicAuthenticator
+// logs the user in with the password from a Basic header, obtains a ticket for the service from the (simulated) KDC and
+// verifies it like an AP-REQ. The KDC puts the Case's PAC, signed under the service's key, into that ticket.
+func evalBasic(c Case) (evid.Verdict, string) {
+	et := ref.ETypeForCksum(c.SrvAlg)
+	w := kdc.NewWorld(e2eSeq.Add(1) + 77000)
+	r := w.AddRealm("EXAMPLE.COM", kdc.Policy{ETypes: []int32{et}, TicketEType: et})
+	r.AddClient("alice", "basic-auth-password", nil, 64)
+	svc := r.AddService("HTTP/svc.c19.test")
+	svcKey := r.Key(svc, et)
+	cc := c
+	cc.Kind, cc.SrvKey = "layout", hex.EncodeToString(svcKey.Value)
+	b, err := build(cc)
+	if err != nil {
+		return evid.Fail("harness:build", "cannot build the case: %v", err), "harness"
+	}
+	if rr := refAccept(b.pac, b.key); rr != b.constr {
+		return evid.Fail("harness:oracle-disagreement", "reference verifier says accept=%v, construction says accept=%v (%s)", rr, b.constr, b.why), "harness"
+	}
+	if c.T.Kind == "wrongkey" || c.T.Kind == "keybit" {
+		// on this route the service's key is the simulated KDC's: "wrong key" means the PAC in the ticket was signed with the other one
+		c2 := cc
+		c2.T, c2.SrvKey = Tamper{Kind: "none"}, hex.EncodeToString(b.key)
+		b2, err := build(c2)
+		if err != nil {
+			return evid.Fail("harness:build", "cannot build the case: %v", err), "harness"
+		}
+		b2.constr, b2.why = false, "wrong-key"
+		b = b2
+	}
+	r.Mutate = func(x *kdc.ReplyCtx) {
+		if x.Kind == "TGS" && x.Ticket.SName == "HTTP/svc.c19.test" {
+			x.Ticket.AuthData = append(x.Ticket.AuthData, mint.PACAuthData(b.pac))
+		}
+	}
+	ip := kdc.UniqueIP()
+	srv := kdc.NewServer(r, ip, 8893, kdc.Refuses, kdc.Answers, "k")
+	if err := srv.Start(); err != nil {
+		return evid.Fail("harness:listen", "%v", err), "harness"
+	}
+	defer srv.Stop()
+	lim := 1
+	cfg, err := config.NewFromString(kdc.ConfText(kdc.ConfOpts{DefaultRealm: "EXAMPLE.COM", ETypes: etypeNames[et], NoAddresses: true, UDPPrefLimit: &lim, Extra: "  allow_weak_crypto = true\n"},
+		map[string][]string{"EXAMPLE.COM": {ip + ":8893"}}))
+	if err != nil {
+		return evid.Fail("harness:config", "%v", err), "harness"
+	}
+	kt := keytab.New()
+	if err := kt.Unmarshal(keytabBytes("EXAMPLE.COM", []string{"HTTP", "svc.c19.test"}, et, svc.KVNO, svcKey.Value)); err != nil {
+		return evid.Fail("harness:mint", "keytab: %v", err), "harness"
+	}
+	outcome := ""
+	v := evid.SafeEval(func() evid.Verdict {
+		hv := basicB64("alice@EXAMPLE.COM:basic-auth-password")
+		a := service.NewKRB5BasicAuthenticator(hv, cfg, service.NewSettings(kt, service.Logger(discard), service.SName("HTTP/svc.c19.test")), client.NewSettings(client.DisablePAFXFAST(true)))
+		id, ok, err := a.Authenticate()
+		switch {
+		case ok && err == nil:
+			outcome = "accept"
+		default:
+			outcome = "error:" + errClass(fmt.Sprint(err))
+		}
+		switch {
+		case b.constr && !ok:
+			if !strings.Contains(fmt.Sprint(err), "PAC") && !strings.Contains(fmt.Sprint(err), "hecksum") {
+				return evid.Fail("harness:mint", "the basic authenticator failed for a reason unrelated to the PAC: %v", err)
+			}
+			return evid.Fail("basic:reject-valid:"+errClass(fmt.Sprint(err)), "basic authentication refused although the service ticket carries a correctly signed PAC: %v", err)
+		case !b.constr && ok:
+			return evid.Fail("basic:accept-invalid:"+b.why, "basic authentication succeeded although the PAC of the service ticket must not be accepted (%s)", b.why)
+		case !b.constr:
+			return evid.Pass()
+		}
+		creds, isC := id.(*credentials.Credentials)
+		if !isC {
+			return evid.Fail("harness:identity", "identity of type %T", id)
+		}
+		vv := checkADCreds(creds, b)
+		if !vv.OK && !strings.HasPrefix(vv.Sig, "harness:") && vv.Sig != "e2e:attr:filetime-conversion" && !strings.HasPrefix(vv.Sig, "attr:utf16-surrogate-pair") {
+			// (the two conversions that go wrong inside the dependency keep their signature on this route too: one root cause)
+			vv.Sig = "basic:" + strings.TrimPrefix(vv.Sig, "e2e:")
+			vv.Msg = "through service.KRB5BasicAuthenticator: " + vv.Msg
+		}
+		return vv
+	})
+	if !v.OK && outcome == "" {
+		outcome = "panic"
+	}
+	return v, outcome
+}
+
 func evalE2E(c Case) (evid.Verdict, string) {
+	if c.Kind == "basic" {
+		return evalBasic(c)
+	}
 	cc := c
 	cc.Kind = "layout"
 	b, err := build(cc)
@@ -141,63 +302,15 @@ func evalE2E(c Case) (evid.Verdict, string) {
 		case !b.constr:
 			return evid.Pass()
 		}
-		// accepted: the attributes handed to the application
-		i := pacfmt.First(b.entries, pacfmt.TypeLogonInfo)
-		li, err := pacfmt.ParseLogonInfo(b.pac[b.entries[i].Offset : b.entries[i].Offset+uint64(b.entries[i].Size)])
-		if err != nil {
-			return evid.Fail("harness:reference-logon-info", "%v", err)
-		}
-		ad := creds.GetADCredentials()
-		type cmp struct {
-			f    string
-			g, w any
-		}
-		for _, x := range []cmp{
-			{"EffectiveName", ad.EffectiveName, li.EffectiveName.String()}, {"FullName", ad.FullName, li.FullName.String()},
-			{"UserID", uint32(ad.UserID), li.UserID}, {"PrimaryGroupID", uint32(ad.PrimaryGroupID), li.PrimaryGroupID},
-			{"LogonDomainName", ad.LogonDomainName, li.LogonDomainName.String()}, {"LogonDomainID", ad.LogonDomainID, li.LogonDomainID.String()},
-			{"LogonServer", ad.LogonServer, li.LogonServer.String()},
-		} {
-			if !reflect.DeepEqual(x.g, x.w) {
-				if ws, ok := x.w.(string); ok && hasSupplementary(ws) {
-					return evid.Fail("attr:utf16-surrogate-pair:logon-info", "ADCredentials.%s = %q, the verified PAC encodes %q", x.f, x.g, x.w)
-				}
-				return evid.Fail("e2e:attr:"+x.f, "ADCredentials.%s = %v, the verified PAC encodes %v", x.f, x.g, x.w)
-			}
-		}
-		for _, x := range []struct {
-			f string
-			g time.Time
-			w uint64
-		}{{"LogOnTime", ad.LogOnTime, li.LogonTime}, {"LogOffTime", ad.LogOffTime, li.LogoffTime}, {"PasswordLastSet", ad.PasswordLastSet, li.PasswordLastSet}} {
-			if want := pacfmt.FileTimeToTime(x.w); !x.g.Equal(want) {
-				return evid.Fail("e2e:attr:filetime-conversion", "ADCredentials.%s = %s, the verified PAC encodes FILETIME %#x = %s", x.f, x.g.Format(time.RFC3339Nano), x.w, want.Format(time.RFC3339Nano))
-			}
-		}
-		gs, ws := append([]string{}, ad.GroupMembershipSIDs...), append([]string{}, li.GroupSIDs()...)
-		sort.Strings(gs)
-		sort.Strings(ws)
-		if !reflect.DeepEqual(uniq(gs), uniq(ws)) {
-			return evid.Fail("e2e:attr:GroupMembershipSIDs", "ADCredentials.GroupMembershipSIDs = %v, the verified PAC encodes %v", ad.GroupMembershipSIDs, li.GroupSIDs())
-		}
-		for _, s := range ws {
-			if !creds.Authorized(s) {
-				return evid.Fail("e2e:attr:Authorized", "credentials.Authorized(%q) is false for a group SID of the verified PAC", s)
-			}
-		}
-		if li.EffectiveName.String() != "" && creds.UserName() != li.EffectiveName.String() {
-			return evid.Fail("e2e:attr:UserName", "credentials.UserName() = %q, the verified PAC names %q", creds.UserName(), li.EffectiveName.String())
-		}
-		if li.FullName.String() != "" && creds.DisplayName() != li.FullName.String() {
-			return evid.Fail("e2e:attr:DisplayName", "credentials.DisplayName() = %q, the verified PAC names %q", creds.DisplayName(), li.FullName.String())
-		}
-		return evid.Pass()
+		return checkADCreds(creds, b)
 	})
 	if !v.OK && outcome == "" {
 		outcome = "panic"
 	}
 	return v, outcome
 }
+
+func basicB64(s string) string { return base64.StdEncoding.EncodeToString([]byte(s)) }
 
 func e2eChecks(r *evid.Run, record recordFn) {
 	r.Rule("e2e (enumerated): the presentation inside AD-IF-RELEVANT/AD-WIN2K-PAC of a service ticket minted with ref/der + ref/krbcrypto (etype of the signature type, same long-term key), offered to service.VerifyAPREQ in a fresh AP-REQ: three bases x five checksum types x {valid, FILETIMEs inside 1678-2262 only, server signature zeroed / random / bit flipped, signed with another key, client info removed, KDC signature removed}; on acceptance credentials.ADCredentials (names, ids, group SIDs, LogOnTime / LogOffTime / PasswordLastSet as time.Time), Authorized() and UserName() are compared with the reference decoding")
@@ -265,6 +378,44 @@ func e2eChecks(r *evid.Run, record recordFn) {
 		cc.Kind = "layout"
 		b, _ := build(cc)
 		record("e2e", c, v, outcome, b, nil)
+	})
+	r.Rule("basic (enumerated + rapid): the same through the library's other route to ADCredentials, service.KRB5BasicAuthenticator: a simulated KDC logs the user in, issues the service ticket and puts the Case's PAC (signed under the service's key) into it; three bases x checksum types x {valid, logon-info FILETIMEs patched to distinct in-range values, signature zeroed, signed with another key}, and drawn valid presentations with generated logon info")
+	type bjob struct {
+		base string
+		alg  int32
+		mode string
+	}
+	var bjobs []bjob
+	for _, base := range []string{"win2k", "ms", "trust"} {
+		for _, alg := range pacfmt.SigTypes {
+			for _, m := range []string{"valid", "times-distinct", "sig-zero", "wrongkey"} {
+				bjobs = append(bjobs, bjob{base, alg, m})
+			}
+		}
+	}
+	evid.Parallel(len(bjobs), workers(), func(ji int) {
+		j := bjobs[ji]
+		kalg := pacfmt.SigTypes[ji%len(pacfmt.SigTypes)]
+		_, kk := seededKeys(r.Seed(), fmt.Sprintf("c19/basic/%s/%d", j.base, j.alg), j.alg, kalg)
+		c := Case{Kind: "basic", Bufs: append([]Buf{}, enumBases[j.base]...), SrvAlg: j.alg, KDCAlg: kalg, KDCKey: kk, T: Tamper{Kind: "none"}}
+		switch j.mode {
+		case "times-distinct":
+			// every FILETIME of the logon information a different value inside what time.Time can hold
+			c.Bufs[0].Patch = []Patch{{Field: "LogonTime", Value: 131000000000000000}, {Field: "LogoffTime", Value: 140000000000000000}, {Field: "KickOffTime", Value: 141000000000000000},
+				{Field: "PasswordLastSet", Value: 130000000000000000}, {Field: "PasswordCanChange", Value: 130500000000000000}, {Field: "PasswordMustChange", Value: 142000000000000000}}
+		case "sig-zero":
+			c.T = Tamper{Kind: "sig-zero"}
+		case "wrongkey":
+			c.T = Tamper{Kind: "wrongkey", Key: hex.EncodeToString(ref.RandomKey(ref.ETypeForCksum(j.alg), kgen.DetBytes(r.Seed(), fmt.Sprintf("c19/basic/wrong/%d", ji), 32)))}
+		}
+		v, outcome := evalE2E(c)
+		record("e2e", c, v, outcome, nil, nil)
+	})
+	r.Rapid("e2e-gen", r.N(60, 600), func(t *rapid.T) {
+		c := genValid(t, "basic", true)
+		c = genTamper(t, c, false)
+		v, outcome := evalE2E(c)
+		record("e2e-gen", c, v, outcome, nil, t)
 	})
 	r.Rule("e2e-gen (rapid): a drawn valid presentation (any base incl. logon info built from drawn values: names, ids, SIDs with 1-15 sub-authorities and 48-bit authorities, FILETIMEs over the whole range) with or without one signature-level tamper, through VerifyAPREQ as above")
 	r.Rapid("e2e-gen", r.N(300, 3000), func(t *rapid.T) {
